@@ -147,7 +147,7 @@ CLAIMED["C14"] = dict(
          "every filter combination and caps, no explicit packets-per-second limit, every oracle: if the run ended because all normal packets were processed (the caps did not bind), the returned trace satisfies C14.holds - the predicate the monitor evaluates on the "
          "implementation's output: only plain packet events, the client's TunnelSent at exactly every s time and TunnelRecv at exactly every r time, the server's mirror image shifted by the delay, ordered by time. Built from: the window-covering lemma (the trace-derived limit is never exceeded by the "
          "1 s sliding count, so the bottleneck adds nothing), the heap-order invariant of the bit-faithful BinaryHeap model (the served event is a minimum of all eight heaps, so nothing is served late or moved), exact per-iteration successors, and the per-hop lemmas. "
-         "Not proved: that non-binding caps imply the noNormal stop (progress). The monitor evaluates the same predicate on every generated run of the implementation through sim and sim_advanced under every filter combination, and the exact-trace correspondence ties the model to the code.",
+         "Progress is proved too (C14_progress, C14_identity_total, _raw_total, _sim_total; Proofs/SimProgress.lean): for every non-empty time-ordered trace strictly within Duration::MAX, limit fractions in [0,1], continue_after_all_normal off, max_sim_iterations and max_trace_length each 0 or at least 4 x |trace| (and model loop fuel of that size), the machine-less run never faults, ends because all normal packets were processed after exactly 4|trace| - k iterations (k = NormalRecv events still queued, 1 <= k <= |trace|; the weight 4#NormalSent + 3#TunnelSent + 2#TunnelRecv + #NormalRecv drops by one per iteration) and returns a trace satisfying C14.holds, so the total theorems carry no hypothesis about the run; the caps are tight and the strict time bound is necessary (kernel-checked witnesses, C14_strict_bound_needed: a packet exactly Duration::MAX after the first is never served). Runs with continue_after_all_normal on or an explicit packets-per-second limit are covered by the conditional C14_identity and the monitor. The monitor evaluates the same predicate on every generated run of the implementation through sim and sim_advanced under every filter combination, and the exact-trace correspondence ties the model to the code.",
     ref="7 (C14), 12.8",
     technique="Lean 4 lemmas on the simulator model (per-hop) + spec monitor of the composed statement on the implementation's traces + exact-trace differential correspondence",
     note=SIM_NOTE,
